@@ -34,6 +34,26 @@ impl Ctx {
         }
     }
     /// Run one transport operation in isolation; returns its result and its access list (offsets relative to the header).
+    /// Like `op`, for a call outside the transport's documented preconditions: a refusal by panic is accepted,
+    /// only the register accesses performed are returned.
+    fn op_may_refuse<R>(&mut self, name: &str, f: impl FnOnce() -> R) -> Vec<Access> {
+        self.dev.borrow_mut().begin_op();
+        mmio_bus::trace(true);
+        let _ = catch_unwind(AssertUnwindSafe(f));
+        let mut tr = mmio_bus::take_trace();
+        mmio_bus::trace(false);
+        for a in tr.iter_mut() {
+            a.addr = a.addr.wrapping_sub(self.base);
+        }
+        self.ops += 1;
+        self.accesses += tr.len() as u64;
+        for a in mmio_bus::take_unmapped() {
+            self.v("access_outside_region", format!("{}: {:?}", name, a));
+        }
+        let _ = self.dev.borrow_mut().take_viol();
+        tr
+    }
+
     fn op<R>(&mut self, name: &str, f: impl FnOnce() -> R) -> Option<(R, Vec<Access>)> {
         self.dev.borrow_mut().begin_op();
         mmio_bus::trace(true);
@@ -215,6 +235,26 @@ fn exercise<T: Transport>(t: &mut T, c: &mut Ctx, rng: &mut Rng, rounds: usize, 
                     let _ = c.op("queue_unset(pre)", || t.queue_unset(q));
                 }
                 let (d, a, u);
+                if c.legacy && rng.below(8) == 0 {
+                    // outside the legacy precondition "PFN fits in 32 bits" (seed S138): a consistent legacy layout at a
+                    // page-aligned address >= 2^44.  No 32-bit page frame number describes it, so whatever else the
+                    // transport does (the library refuses by assertion), it must not write QueuePFN - that would enable
+                    // the queue at a different physical page.
+                    let pfn = (1u64 << 32 | rng.below(1 << 32)) << rng.below(8);
+                    let d = pfn * 4096;
+                    let a = d + 16 * size as u64;
+                    let u = (a + 6 + 2 * size as u64 + 4096) & !4095;
+                    if c.dev.borrow().guest_page_size.is_none() {
+                        let _ = c.op("set_guest_page_size", || t.set_guest_page_size(4096));
+                    }
+                    let tr = c.op_may_refuse("queue_set(unrepresentable pfn)", || t.queue_set(q, size, d, a, u));
+                    if let Some(x) = tr.iter().find(|x| x.addr == 0x40 && x.write) {
+                        c.v("legacy_pfn_truncated", format!("legacy queue_set with descriptor table at {:#x} (page frame {:#x} does not fit in 32 bits) wrote QueuePFN = {:#x}", d, pfn, x.value));
+                    }
+                    sh.inc("op_queue_set_legacy_unrepresentable_pfn", 1);
+                    // the transport object may have been left mid-operation by the refusal: end this case here
+                    break;
+                }
                 if c.legacy {
                     // legacy preconditions: page aligned, contiguous layout, PFN fits in 32 bits
                     let pfn = match rng.below(3) {
